@@ -53,6 +53,10 @@ Section Spec.
 Variable g : grammar.
 Variable input : list N.
 Variable orc : nat -> nat -> option nat.
+(* [tsep] = true: the variant that keeps a trailing separator (the separator of an iteration whose
+   element then fails stays in the result although it is given back) - Arpeggio's Repetition.  The
+   documented semantics is [tsep] = false. *)
+Variable tsep : bool.
 
 Notation sparser := (nat -> bool -> sctx -> nat -> sres) (only parsing).
 
@@ -123,7 +127,7 @@ Fixpoint srep (rec : sparser) (e : nat) (sep : option nat) (plus : bool) (x : sc
         match rec e false x p1 with
         | SOk ts p2 => if Nat.ltb p p2 then srep rec e sep plus x k' false (acc ++ sts ++ ts) p2
                        else if (plus && first)%bool then SOk (acc ++ sts ++ ts) p2 else stop
-        | SFail => stop
+        | SFail => if (plus && first)%bool then SFail else SOk (if tsep then acc ++ sts else acc) p
         | SOut => SOut
         end in
     match sep with
@@ -273,7 +277,11 @@ Definition init_ctx (c : config) : sctx := mkCtx (c_ws c) (c_skipws c) false fal
 
 Definition spec_run (g : grammar) (c : config) (orc : nat -> nat -> option nat) (fuel : nat)
            (input : list N) : sres :=
-  seval g input orc fuel (g_top g) false (init_ctx c) 0.
+  seval g input orc false fuel (g_top g) false (init_ctx c) 0.
+(* the same with the trailing-separator variant *)
+Definition spec_run_q (g : grammar) (c : config) (orc : nat -> nat -> option nat) (fuel : nat)
+           (input : list N) : sres :=
+  seval g input orc true fuel (g_top g) false (init_ctx c) 0.
 
 (* ---------------------------------------------------------------- extents (for C06) *)
 (* consumed extent of a match: from the first to after the last non-empty terminal, suppressed
@@ -317,18 +325,37 @@ Definition prodb (g : grammar) (pf : nat) (nid : nat) : bool := nth nid (prod_tb
 
 Definition opt_none {A} (o : option A) : bool := match o with None => true | Some _ => false end.
 
-(* the constructs on which Model/Peg.v and this semantics provably agree; [pr] = productive *)
+(* the constructs on which Model/Peg.v and this semantics provably agree; [pr] = productive.
+   Inside the class: suppression anywhere (a suppressed node is not productive, so it cannot be a choice
+   alternative or a repetition element), predicates that are not (live) rule roots, separators
+   (with the trailing-separator variant [tsep]), rule-level ws/skipws on sequences and choices. *)
+Definition live_root (nd : node) : bool := n_root nd && negb (n_suppress nd).
+Definition mods_ok (nd : node) : bool :=
+  match n_kind nd with
+  | KSeq | KChoice => true
+  | _ => opt_none (n_ws nd) && opt_none (n_skipws nd)
+  end.
+Definition sep_ok (g : grammar) (nd : node) : bool :=
+  match n_sep nd with
+  | None => true
+  | Some sp =>
+    match n_kind nd with
+    | KStar | KPlus => Nat.ltb sp (length (g_nodes g))
+    | _ => false
+    end
+  end.
 Definition node_ok (g : grammar) (pr : nat -> bool) (nd : node) : bool :=
-  negb (n_suppress nd) && opt_none (n_sep nd) && negb (n_eolterm nd) && opt_none (n_ws nd) && opt_none (n_skipws nd) &&
+  sep_ok g nd && negb (n_eolterm nd) && mods_ok nd &&
   forallb (fun c => Nat.ltb c (length (g_nodes g))) (n_kids nd) &&
   match n_kind nd with
-  | KSeq => if n_root nd then prod_nd pr nd else true
+  | KSeq => if live_root nd then prod_nd pr nd else true
   | KChoice => forallb pr (n_kids nd) && match n_kids nd with [] => false | _ => true end
-  | KOpt => match n_kids nd with e :: _ => if n_root nd then pr e else true | [] => false end
+  | KOpt => match n_kids nd with e :: _ => if live_root nd then pr e else true | [] => false end
   | KStar | KPlus => match n_kids nd with e :: _ => pr e | [] => false end
   | KStr t _ => nonempty_s t
   | KRegex _ | KEOF => true
-  | _ => false
+  | KAnd | KNot | KEmpty => negb (live_root nd)
+  | KUnord => false
   end.
 Definition wfg (g : grammar) (pf : nat) : bool :=
   (let t := prod_tbl g pf in forallb (node_ok g (fun c => nth c t false)) (g_nodes g)) && opt_none (g_comments g)
